@@ -9,6 +9,7 @@ pub mod elem;
 pub mod layouts;
 pub mod outcome;
 pub mod plan;
+pub mod serde_elem;
 pub mod telem;
 pub mod watchdog;
 pub mod world;
@@ -34,6 +35,14 @@ pub mod sse {
         use super::*;
         include!("interp_lay.rs");
     }
+    pub mod arith {
+        use super::*;
+        include!("interp_arith.rs");
+    }
+    pub mod serde_i {
+        use super::*;
+        include!("interp_serde.rs");
+    }
 }
 
 /// Interpreters instantiated against the portable (cfg(miri)) twin of /repo.
@@ -57,6 +66,14 @@ pub mod gen {
         use super::*;
         include!("interp_lay.rs");
     }
+    pub mod arith {
+        use super::*;
+        include!("interp_arith.rs");
+    }
+    pub mod serde_i {
+        use super::*;
+        include!("interp_serde.rs");
+    }
 }
 
 pub mod specs;
@@ -72,6 +89,10 @@ pub fn run_case(case: &case::Case) -> outcome::Outcome {
         ("set", _) => gen::set::run_case(case),
         ("lay", 0) => sse::lay::run_case(case),
         ("lay", _) => gen::lay::run_case(case),
+        ("serde", 0) => sse::serde_i::run_case(case),
+        ("serde", _) => gen::serde_i::run_case(case),
+        ("arith", 0) | ("prim", 0) => sse::arith::run_case(case),
+        ("arith", _) | ("prim", _) => gen::arith::run_case(case),
         _ => panic!("unknown case kind {}", case.kind),
     }
 }
